@@ -29,9 +29,66 @@ theorem rel_file_facts {cfg : Cfg} {d : Disk} {must issued : List Grp} (hd : Dis
   obtain ⟨a, b⟩ := hok.jseq p hpr g hg
   exact ⟨b, a⟩
 
+/-- a view the session mirrors, with everything the derivation of `EditOK` wants of it; it is the last view of the
+    manifest, or — while the storage is ahead of the session by the edit of a discarded transaction — that view
+    without the transaction's table -/
+structure BaseView (cfg : Cfg) (s : St) (d : Disk) (v : MView) : Prop where
+  mir : Mirror s v
+  ok : ViewOK d (must s) (issuedGrps s) v
+  jasc : ∀ p ∈ d.journals, v.jn ≤ p.1 → AscFrom 0 p.2.all
+  jord : ∀ p ∈ d.journals, v.jn ≤ p.1 → ∀ q ∈ d.journals, p.1 < q.1 →
+    ∀ g ∈ p.2.all, ∀ g' ∈ q.2.all, g.fin ≤ g'.seq
+  sq : v.sq ≤ s.seq
+  nf : v.nf ≤ s.nextFile
+  jn : s.phase = .running → v.jn ≤ s.jcur
+  fresh : Holds' s.job fun j => ∀ o ∈ j.outs, v.nf ≤ o.1
+  rel : s.phase = .running → ∀ p ∈ d.journals, v.jn ≤ p.1 → p.1 = s.jcur ∨ some p.1 = s.jfrozen ∨ Stale s p.2
+
+/-- facts about the groups of a journal file that a base view still replays -/
+theorem BaseView.file_facts {cfg : Cfg} {s : St} {d : Disk} {v : MView} (hb : BaseView cfg s d v)
+    {p : Nat × LogFile Grp} (hp : p ∈ d.journals) (hjn : v.jn ≤ p.1) :
+    AscFrom 0 p.2.all ∧ (∀ g ∈ p.2.all, g ∈ issuedGrps s ∧ (v.sq ≤ g.seq ∨ g ∉ must s)) ∧
+    (∀ h ∈ liveGrps d v, ∀ g ∈ p.2.all, Disj h g) ∧
+    (∀ q ∈ d.journals, p.1 < q.1 → ∀ g ∈ p.2.all, ∀ g' ∈ q.2.all, g.fin ≤ g'.seq) := by
+  have hpr : p ∈ relJournals d v.jn := mem_relJournals.2 ⟨hp, hjn⟩
+  refine ⟨hb.jasc p hp hjn, fun g hg => ?_, fun h hh g hg => hb.ok.tj h hh p hpr g hg, hb.jord p hp hjn⟩
+  obtain ⟨a, b⟩ := hb.ok.jseq p hpr g hg
+  exact ⟨b, a⟩
+
+/-- without a ghost edit the last view of the manifest is a base view, for a job before its commit -/
+theorem Inv.baseView {cfg : Cfg} {s : St} {d : Disk} (h : Inv cfg s d) {j : Job} (hj : s.job = some j)
+    (hbc : j.pc.beforeCommit = true) (hl : s.limbo = none) (hmir : Holds (lastView cfg d) (Mirror s)) :
+    ∃ mf v0 v, DiskOK.Parts cfg d (must s) (issuedGrps s) mf v0 ∧ lastView cfg d = some v ∧
+      viewAt cfg mf mf.unsynced.length = some v ∧ v0.jn ≤ v.jn ∧ BaseView cfg s d v := by
+  obtain ⟨mf, v0, v, hparts, hv, hvl, hvok, hmono⟩ := h.disk.last
+  have hph := h.not_crashed hj
+  have hb := h.bounds hph
+  have hbv := hb.all mf hparts.cur _ (Nat.le_refl _) v hvl
+  rw [seqHi_eq (not_trWindow_of_bc hj hbc hl)] at hbv
+  have hok := h.job
+  rw [hj] at hok
+  have hok : JobOK cfg s d j := hok
+  rw [hv] at hmir
+  refine ⟨mf, v0, v, hparts, hv, hvl, hmono, hmir, hvok, ?_, ?_, hbv.1, hbv.2.1, hbv.2.2, ?_, ?_⟩
+  · intro p hp hge
+    exact hparts.jasc p (mem_relJournals.2 ⟨hp, Nat.le_trans hmono hge⟩)
+  · intro p hp hge q hq hlt
+    exact hparts.jord p (mem_relJournals.2 ⟨hp, Nat.le_trans hmono hge⟩) q
+      (mem_relJournals.2 ⟨hq, by have := Nat.le_trans hmono hge; omega⟩) hlt
+  · rw [hj]
+    intro o ho
+    have hf := holds_some (holds_some (hok.fresh.2 hbc) hparts.cur _ (Nat.le_refl _)) hvl
+    rcases hf.1 o ho with h0 | h0
+    · exact h0
+    · rw [hl] at h0; exact absurd h0.2.1 (by simp)
+  · intro hr p hp hge
+    have r1 := holds_some (h.run hr).rel hparts.cur
+    have r2 := holds_some r1 hparts.hv0
+    exact r2 p hp (Nat.le_trans hmono hge)
+
 theorem Inv.editOK_flush {cfg : Cfg} {s : St} {d : Disk} (h : Inv cfg s d) {j : Job} (hj : s.job = some j)
-    (hk : j.kind = .flush) {e : MRec} (he : j.edit = some e) (hbc : j.pc.beforeCommit = true) :
-    ∃ v, lastView cfg d = some v ∧ EditOK s d j e v := by
+    (hk : j.kind = .flush) {e : MRec} (he : j.edit = some e) (hbc : j.pc.beforeCommit = true)
+    {v : MView} (hbase : BaseView cfg s d v) : EditOK s d j e v := by
   have hok := h.job
   rw [hj] at hok
   have hkind := hok.kind
@@ -40,7 +97,6 @@ theorem Inv.editOK_flush {cfg : Cfg} {s : St} {d : Disk} (h : Inv cfg s d) {j : 
   simp only at hkind
   obtain ⟨hph, hkind⟩ := hkind
   have hrun := h.run hph
-  have hb := h.bounds (by rw [hph]; decide)
   have hnc : NoCommitYet s := by unfold NoCommitYet; rw [hj]; exact hbc
   rcases frozenOK_iff.1 hrun.frozen with ⟨h1, _⟩ | ⟨fz, jf, h1, h2, f1, f2, f3, f4, f5, f6⟩
   · rw [h1] at hkind; simp at hkind
@@ -48,18 +104,13 @@ theorem Inv.editOK_flush {cfg : Cfg} {s : St} {d : Disk} (h : Inv cfg s d) {j : 
   simp only at hkind
   obtain ⟨houts, hejn, hesq, hrm, hmk, hfzne⟩ := hkind
   obtain ⟨⟨pf, hpf, hpfn⟩, hlv⟩ := f6 hnc.flushPending
-  obtain ⟨mf, v0, v, hparts, hv, hvl, hvok, hmono⟩ := h.disk.last
-  rw [hv] at hlv
-  obtain ⟨hvjn, hvsq⟩ : v.jn ≤ jf ∧ v.sq ≤ s.frozenSeq := hlv
-  have hcur := hparts.cur
+  obtain ⟨m1, m2, m3⟩ := hbase.mir
+  obtain ⟨hvjn, hvsq⟩ : v.jn ≤ jf ∧ v.sq ≤ s.frozenSeq := by rw [m2, m3]; exact hlv
   have hog : outsGrps j = fz := by simp [outsGrps, houts]
   obtain ⟨h5a, _, _, _⟩ := f5 pf hpf hpfn
-  obtain ⟨hasc, hiss, hlive, _⟩ := rel_file_facts h.disk hv hpf (by rw [hpfn]; exact hvjn)
-  refine ⟨v, hv, ?_⟩
+  obtain ⟨hasc, hiss, hlive, _⟩ := hbase.file_facts hpf (by rw [hpfn]; exact hvjn)
   have hjn0 : e.jn.getD v.jn = s.jcur := by rw [hejn]; rfl
   have hsq0 : e.sq.getD v.sq = s.frozenSeq := by rw [hesq]; rfl
-  have hbv := hb.all mf hcur _ (Nat.le_refl _) v hvl
-  rw [seqHi_eq (not_trWindow_of_bc hj hbc)] at hbv
   have hcap : sqCap s j = s.seq := by unfold sqCap; rw [if_neg (by rw [hk]; exact fun hx => nomatch hx)]
   constructor
   · have x := hok.shape; rw [he] at x; exact x
@@ -71,10 +122,8 @@ theorem Inv.editOK_flush {cfg : Cfg} {s : St} {d : Disk} (h : Inv cfg s d) {j : 
     simp
   · rw [hjn0, hog]
     intro p hp hge hlt g hg
-    have r1 := holds_some hrun.rel hcur
-    have r2 := holds_some r1 hparts.hv0
     intro hgm
-    rcases r2 p hp (Nat.le_trans hmono hge) with h3 | h3 | h3
+    rcases hbase.rel hph p hp hge with h3 | h3 | h3
     · omega
     · rw [h2] at h3
       cases h3
@@ -96,11 +145,11 @@ theorem Inv.editOK_flush {cfg : Cfg} {s : St} {d : Disk} (h : Inv cfg s d) {j : 
     · rw [hemp] at hg; cases hg
   · rw [hjn0, hsq0, hcap]
     have hjl : s.jcur < s.nextFile := hrun.jmax.1
-    exact ⟨hbv.2.2 hph, hvsq, f2, fun _ => Nat.le_refl _, hjl⟩
+    exact ⟨hbase.jn hph, hvsq, f2, fun _ => Nat.le_refl _, hjl⟩
   · intro o ho
-    have hf := hok.fresh
-    refine ⟨?_, hf.1 o ho⟩
-    exact (holds_some (holds_some (hf.2 hbc) hcur _ (Nat.le_refl _)) hvl).1 o ho
+    have hf := hbase.fresh
+    rw [hj] at hf
+    exact ⟨hf o ho, hok.fresh.1 o ho⟩
 
 
 /-- the recovery memdb as the content of the outputs -/
@@ -163,7 +212,7 @@ theorem Inv.editOK_recovMid {cfg : Cfg} {s : St} {d : Disk} (h : Inv cfg s d) {j
   have hjn0 : e.jn.getD v.jn = n := by rw [hejn]; rfl
   have hsq0 : e.sq.getD v.sq = s.seq := by rw [hesq]; rfl
   have hbv := hb.all mf hcur _ (Nat.le_refl _) v hvl
-  rw [seqHi_eq (not_trWindow_of_bc hj hbc)] at hbv
+  rw [seqHi_eq (not_trWindow_of_bc hj hbc hrec.idle.2.2.2)] at hbv
   have hcap : sqCap s j = s.seq := by unfold sqCap; rw [if_neg (by rw [hk]; exact fun hx => nomatch hx)]
   -- the head of the todo list
   obtain ⟨rest, htodo⟩ : ∃ rest, r.todo = n :: rest := by
@@ -215,7 +264,8 @@ theorem Inv.editOK_recovMid {cfg : Cfg} {s : St} {d : Disk} (h : Inv cfg s d) {j
   · intro o' ho'
     have hf := hok.fresh
     refine ⟨?_, hf.1 o' ho'⟩
-    exact (holds_some (holds_some (hf.2 hbc) hcur _ (Nat.le_refl _)) hvl).1 o' ho'
+    exact ((holds_some (holds_some (hf.2 hbc) hcur _ (Nat.le_refl _)) hvl).1 o' ho').resolve_right
+      (fun x => by rw [hrec.idle.2.2.2] at x; exact absurd x.2.1 (by simp))
 
 
 theorem Inv.editOK_recovFinal {cfg : Cfg} {s : St} {d : Disk} (h : Inv cfg s d) {j : Job} (hj : s.job = some j)
@@ -255,7 +305,7 @@ theorem Inv.editOK_recovFinal {cfg : Cfg} {s : St} {d : Disk} (h : Inv cfg s d) 
   have hjn0 : e.jn.getD v.jn = n := by rw [hejn]; rfl
   have hsq0 : e.sq.getD v.sq = s.seq := by rw [hesq]; rfl
   have hbv := hb.all mf hcur _ (Nat.le_refl _) v hvl
-  rw [seqHi_eq (not_trWindow_of_bc hj hbc)] at hbv
+  rw [seqHi_eq (not_trWindow_of_bc hj hbc hrec.idle.2.2.2)] at hbv
   have hcap : sqCap s j = s.seq := by unfold sqCap; rw [if_neg (by rw [hk]; exact fun hx => nomatch hx)]
   have hf := hok.fresh
   have hfv := holds_some (holds_some (hf.2 hbc) hcur _ (Nat.le_refl _)) hvl
@@ -312,29 +362,17 @@ theorem Inv.editOK_recovFinal {cfg : Cfg} {s : St} {d : Disk} (h : Inv cfg s d) 
     have := hvok.jnf
     exact ⟨by omega, hbv.1, Nat.le_refl _, (fun hr => by rw [hph] at hr; cases hr), hnlt⟩
   · intro o' ho'
-    exact ⟨hfv.1 o' ho', hf.1 o' ho'⟩
+    exact ⟨(hfv.1 o' ho').resolve_right (fun x => by rw [hrec.idle.2.2.2] at x; exact absurd x.2.1 (by simp)),
+      hf.1 o' ho'⟩
 
-/-- the session mirrors the last view while the job's edit is neither in the manifest nor in a manifest that
-    `CURRENT` names -/
+/-- the session mirrors the last view (or lags it by the ghost edit) while the job's edit is neither in the manifest
+    nor in a manifest that `CURRENT` names -/
 theorem JobOK.mirror_before {cfg : Cfg} {s : St} {d : Disk} {j : Job} (h : JobOK cfg s d j)
-    (hbc : j.pc.beforeCommit = true) : Settled cfg s d (Mirror s) := by
-  have hm := h.manifest
-  unfold JobManifestOK at hm
-  cases he : j.edit with
-  | none => rw [he] at hm; exact hm
-  | some e =>
-    rw [he] at hm
-    simp only at hm
-    cases hpc : j.pc <;> rw [hpc] at hm hbc <;> simp only [JobManifest, JPc.beforeCommit] at hm hbc
-    all_goals first
-      | exact hm
-      | exact hm.1
-      | cases hbc
-      | exact absurd hm id
+    (hbc : j.pc.beforeCommit = true) : Settled cfg s d (MirrorL s) := h.mirror_before' hbc
 
 theorem Inv.editOK_compaction {cfg : Cfg} {s : St} {d : Disk} (h : Inv cfg s d) {j : Job} (hj : s.job = some j)
-    (hk : j.kind = .compaction) {e : MRec} (he : j.edit = some e) (hbc : j.pc.beforeCommit = true) :
-    ∃ v, lastView cfg d = some v ∧ EditOK s d j e v := by
+    (hk : j.kind = .compaction) {e : MRec} (he : j.edit = some e) (hbc : j.pc.beforeCommit = true)
+    {v : MView} (hbase : BaseView cfg s d v) : EditOK s d j e v := by
   have hok := h.job
   rw [hj] at hok
   have hok : JobOK cfg s d j := hok
@@ -343,11 +381,7 @@ theorem Inv.editOK_compaction {cfg : Cfg} {s : St} {d : Disk} (h : Inv cfg s d) 
   rw [hk] at hkind
   simp only at hkind
   obtain ⟨hph, hmk, hrmj, _⟩ := hkind
-  have hb := h.bounds (by rw [hph]; decide)
-  obtain ⟨mf, v0, v, hparts, hv, hvl, hvok, hmono⟩ := h.disk.last
-  have hcur := hparts.cur
-  have hbv := hb.all mf hcur _ (Nat.le_refl _) v hvl
-  rw [seqHi_eq (not_trWindow_of_bc hj hbc)] at hbv
+  have hvok := hbase.ok
   have hcap : sqCap s j = s.seq := by unfold sqCap; rw [if_neg (by rw [hk]; exact fun hx => nomatch hx)]
   have hin := hok.inputs
   rw [he] at hin
@@ -356,11 +390,7 @@ theorem Inv.editOK_compaction {cfg : Cfg} {s : St} {d : Disk} (h : Inv cfg s d) 
   rw [if_pos hk] at hin
   obtain ⟨hejn, hesq, hdel, hdlt, hpre⟩ := hin
   obtain ⟨hdlive, hog⟩ := hpre hbc
-  have hmir := hok.mirror_before hbc
-  unfold Settled at hmir
-  have hmir := (holds_some hmir hcur).2
-  rw [hv] at hmir
-  obtain ⟨hvlive, _, _⟩ : Mirror s v := hmir
+  obtain ⟨hvlive, _, _⟩ := hbase.mir
   have hjn0 : e.jn.getD v.jn = v.jn := by rw [hejn]; rfl
   have hsq0 : e.sq.getD v.sq = v.sq := by rw [hesq]; rfl
   have hsub : ∀ g ∈ outsGrps j, g ∈ liveGrps d v := by
@@ -368,7 +398,6 @@ theorem Inv.editOK_compaction {cfg : Cfg} {s : St} {d : Disk} (h : Inv cfg s d) 
     rw [hog] at hg
     obtain ⟨t, ht, hgt⟩ := List.mem_flatMap.1 hg
     exact List.mem_flatMap.2 ⟨t, by rw [hvlive]; exact hdlive t ht, hgt⟩
-  refine ⟨v, hv, ?_⟩
   constructor
   · have x := hok.shape; rw [he] at x; exact x
   · exact ⟨fun t ht => by rw [hvlive]; exact hdlive t ht, fun g hg => by rw [hog]; exact hg⟩
@@ -385,15 +414,15 @@ theorem Inv.editOK_compaction {cfg : Cfg} {s : St} {d : Disk} (h : Inv cfg s d) 
     exact ⟨(hvok.jseq p hpr g hg).1, fun x hx => hvok.tj x (hsub x hx) p hpr g hg⟩
   · rw [hjn0, hsq0, hcap]
     have := hvok.jnf
-    exact ⟨Nat.le_refl _, Nat.le_refl _, hbv.1, hbv.2.2, by omega⟩
+    exact ⟨Nat.le_refl _, Nat.le_refl _, hbase.sq, hbase.jn, by have := hbase.nf; omega⟩
   · intro o ho
-    have hf := hok.fresh
-    refine ⟨?_, hf.1 o ho⟩
-    exact (holds_some (holds_some (hf.2 hbc) hcur _ (Nat.le_refl _)) hvl).1 o ho
+    have hf := hbase.fresh
+    rw [hj] at hf
+    exact ⟨hf o ho, hok.fresh.1 o ho⟩
 
 theorem Inv.editOK_tr {cfg : Cfg} {s : St} {d : Disk} (h : Inv cfg s d) {j : Job} (hj : s.job = some j)
-    (hk : j.kind = .tr) {e : MRec} (he : j.edit = some e) (hbc : j.pc.beforeCommit = true) :
-    ∃ v, lastView cfg d = some v ∧ EditOK s d j e v := by
+    (hk : j.kind = .tr) {e : MRec} (he : j.edit = some e) (hbc : j.pc.beforeCommit = true)
+    {v : MView} (hbase : BaseView cfg s d v) : EditOK s d j e v := by
   have hok := h.job
   rw [hj] at hok
   have hok : JobOK cfg s d j := hok
@@ -403,11 +432,7 @@ theorem Inv.editOK_tr {cfg : Cfg} {s : St} {d : Disk} (h : Inv cfg s d) {j : Job
   simp only at hkind
   obtain ⟨hph, hmk, hrmj, hrmt, hkind⟩ := hkind
   have hrun := h.run hph
-  have hb := h.bounds (by rw [hph]; decide)
-  obtain ⟨mf, v0, v, hparts, hv, hvl, hvok, hmono⟩ := h.disk.last
-  have hcur := hparts.cur
-  have hbv := hb.all mf hcur _ (Nat.le_refl _) v hvl
-  rw [seqHi_eq (not_trWindow_of_bc hj hbc)] at hbv
+  have hvok := hbase.ok
   rw [holds_iff] at hkind
   obtain ⟨g, hg, hkind⟩ := hkind
   rw [he] at hkind
@@ -422,12 +447,11 @@ theorem Inv.editOK_tr {cfg : Cfg} {s : St} {d : Disk} (h : Inv cfg s d) {j : Job
   have hjn0 : e.jn.getD v.jn = v.jn := by rw [hejn]; rfl
   have hsq0 : e.sq.getD v.sq = g.fin - 1 := by rw [hesq]; rfl
   have hog : outsGrps j = [g] := by simp [outsGrps, houts]
-  -- every journal the last view would replay holds at most records of failed writes, below the transaction
+  have hsq := hbase.sq
+  -- every journal the base view would replay holds at most records of failed writes, below the transaction
   have hstale : ∀ p ∈ d.journals, v.jn ≤ p.1 → ∀ x ∈ p.2.all, x ∉ must s ∧ x.fin ≤ s.seq + 1 := by
     intro p hp hge x hx
-    have r1 := holds_some hrun.rel hcur
-    have r2 := holds_some r1 hparts.hv0
-    rcases r2 p hp (Nat.le_trans hmono hge) with h3 | h3 | h3
+    rcases hbase.rel hph p hp hge with h3 | h3 | h3
     · have hl := hrun.jcur
       rw [holds_iff] at hl
       obtain ⟨jf, hjf, hall⟩ := hl
@@ -450,7 +474,6 @@ theorem Inv.editOK_tr {cfg : Cfg} {s : St} {d : Disk} (h : Inv cfg s d) {j : Job
   have hin : InputsOK s d j e := hin
   unfold InputsOK at hin
   rw [if_neg (by rw [hk]; exact fun hx => nomatch hx)] at hin
-  refine ⟨v, hv, ?_⟩
   constructor
   · have x := hok.shape; rw [he] at x; exact x
   · rw [hin.1]; simp
@@ -476,11 +499,12 @@ theorem Inv.editOK_tr {cfg : Cfg} {s : St} {d : Disk} (h : Inv cfg s d) {j : Job
     exact Or.inr (Or.inr (by omega))
   · rw [hjn0, hsq0, hcap]
     have := hvok.jnf
-    exact ⟨Nat.le_refl _, by omega, Nat.le_refl _, hbv.2.2, by omega⟩
+    have := hbase.nf
+    exact ⟨Nat.le_refl _, by omega, Nat.le_refl _, hbase.jn, by omega⟩
   · intro o ho
-    have hf := hok.fresh
-    refine ⟨?_, hf.1 o ho⟩
-    exact (holds_some (holds_some (hf.2 hbc) hcur _ (Nat.le_refl _)) hvl).1 o ho
+    have hf := hbase.fresh
+    rw [hj] at hf
+    exact ⟨hf o ho, hok.fresh.1 o ho⟩
 
 /-- the output tables are on disk once the table phase is over -/
 theorem JobOK.outs_on_disk {cfg : Cfg} {s : St} {d : Disk} {j : Job} (h : JobOK cfg s d j)
